@@ -233,7 +233,9 @@ func propC15(c c15Case) *Outcome {
 			h = &c15Good{id: i} // perfectly good for the other interface (and possibly approved for it earlier), not for this one
 		case op.Typed && op.Iface2:
 			h = &c15Good2{id: i}
-		case op.Typed && op.BadHandler && i%2 == 1:
+		case op.Typed && op.BadHandler && i%3 == 2:
+			h = c15Good{id: i} // a value where only the pointer type has the methods: does not implement the interface
+		case op.Typed && op.BadHandler && i%3 == 1:
 			h = &c15BadSig{id: i}
 		case op.Typed && op.BadHandler:
 			h = &c15Bad{id: i}
@@ -315,7 +317,7 @@ func init() { registerReplay("C15", propC15) }
 
 const c15Rule = "rapid-generated histories (1..12 ops: register valid / duplicate name / handler not implementing HandlerType, query, iterate, info) over HandlerMap, inprocgrpc.Channel and httpgrpc.Server with generated descriptors (0..5 unary + 0..5 streaming methods, all flag combinations, string/int/nil metadata); " +
 	"invariant after every step: QueryService agrees with a model map on every name seen and on near misses (identical pointers or nil,nil), ForEach visits the model exactly once each, GetServiceInfo equals (methods as multisets) what a fresh grpc.Server given the same valid registrations reports; refused registrations panic and change nothing; " +
-	"also generated since the seeded rounds: handlers with the right method name and a wrong signature, near-miss names (.X, X., /X), typed-nil handlers, a second service interface (a handler type valid for one service offered for the other), registration through grpchan.WithInterceptor; " +
+	"also generated since the seeded rounds: handlers with the right method name and a wrong signature, near-miss names (.X, X., /X), typed-nil handlers, a second service interface (a handler type valid for one service offered for the other), registration through grpchan.WithInterceptor, handler values whose pointer type alone implements the interface; " +
 	"non-trivial = history ending with >=2 services or containing a refused registration; distinct by case hash"
 
 func TestC15(t *testing.T) {
